@@ -143,6 +143,8 @@ func TestC14(t *testing.T) {
 			tss("o1", "a", "g1", "a"), tss("o2", "a", "g2", "a"), tss("g1", "a", "g2", "a"), tss("g2", "a", "g3", "a"), tid("g3", "a", "u"),
 			tss("g3", "a", "g1", "a"),                      // cycle
 			tid("o1", "b", "v"), tss("o3", "a", "o3", "a"), // decoy, self loop
+			// a diamond: d -> d1 -> s, d -> d2 -> s (the shared node is reachable through two SIBLINGS)
+			tss("d", "a", "d1", "a"), tss("d", "a", "d2", "a"), tss("d1", "a", "s", "a"), tss("d2", "a", "s", "a"), tid("s", "a", "w"),
 		}
 		rows := w.Rows(ts)
 		exp := expand.NewEngine(&deps{RegistryDefault: w.Reg, ms: w.Store, names: w.Names})
@@ -196,6 +198,13 @@ func TestC14(t *testing.T) {
 			}},
 			{"expand o1#a", func(ctx context.Context) string {
 				tr, err := exp.BuildTree(ctx, &relationtuple.SubjectSet{Namespace: "n", Object: w.Names.ID("o1"), Relation: "a"}, 4)
+				if err != nil {
+					return "err:" + err.Error()
+				}
+				return treeStr(tr)
+			}},
+			{"expand d#a", func(ctx context.Context) string {
+				tr, err := exp.BuildTree(ctx, &relationtuple.SubjectSet{Namespace: "n", Object: w.Names.ID("d"), Relation: "a"}, 4)
 				if err != nil {
 					return "err:" + err.Error()
 				}
@@ -586,6 +595,19 @@ func c14SchedPasses(run *ev.Run, bound int) map[string]any {
 			for o := range v.Outcomes {
 				m.Outcomes[o] = true
 			}
+		}
+	}
+	// a request whose answer does not go through a permission rewrite (expand; the recorded finding KF-C01-1
+	// makes checks through && / ! schedule dependent) has ONE answer alone, whatever the interleaving of the
+	// goroutines it starts
+	for k, m := range merged {
+		if i := strings.Index(k, "|expand "); i >= 0 && len(m.Outcomes) > 1 {
+			var outs []string
+			for o := range m.Outcomes {
+				outs = append(outs, o)
+			}
+			sort.Strings(outs)
+			run.Violation("schedule-dependent-answer:expand", fmt.Sprintf("request %q alone, on unchanging data, answers differently under different schedules of its own goroutines (bound %d): %d different trees, e.g. %.200s | %.200s", k[i+1:], bound, len(outs), outs[0], outs[1]), map[string]any{"request": k, "outcomes": len(outs)})
 		}
 	}
 	b, _ := json.Marshal(merged)
